@@ -1374,6 +1374,10 @@ open Ndt
         mod = parse('extrapolation.py')
         f = [n for n in mod.body if isinstance(n, ast.FunctionDef) and n.name == 'dea3'][0]
         body = [st for st in f.body if not (isinstance(st, ast.Expr) and isinstance(st.value, ast.Constant))]
+        # the helper the tolerances go through is translated as `maxAbs`: its body is pinned
+        mx = [n for n in mod.body if isinstance(n, ast.FunctionDef) and n.name == 'max_abs'][0]
+        if flat(ast.unparse(mx.body[-1])) != 'return np.maximum(np.abs(a), np.abs(b))':
+            raise Unsupported('max_abs changed: ' + ast.unparse(mx.body[-1]))
         if flat(ast.unparse(body[0])) != 'e_0, e_1, e_2 = np.atleast_1d(v_0, v_1, v_2)':
             raise Unsupported('dea3 prologue: ' + ast.unparse(body[0])[:80])
         tr = NpTr(['e_0', 'e_1', 'e_2'])
